@@ -202,6 +202,18 @@ def oracle_loader_fsc_variants(ck, rng, fscf):
         if not np.allclose(same.to_numpy(), df.to_numpy(), atol=1e-4, equal_nan=True):
             fails.append("converter mask and the same mask given as an array give different FSC")
         # (b)
+        # every loader FSC entry point with the same arguments reports the same curve (zero_norm on and off, with the array mask)
+        for zn in (True, False):
+            a_ = ld.fsc_with_halfmaps(mask=msk.astype(np.float32), seed=seed, n_set=nset, dfreq=dfq, squeeze=False, zero_norm=zn)
+            b_ = ld.fsc_with_average(mask=msk.astype(np.float32), seed=seed, n_set=nset, dfreq=dfq, zero_norm=zn)
+            if not np.allclose(a_[0].to_numpy(), b_[0].to_numpy(), atol=1e-5, equal_nan=True):
+                fails.append(f"fsc_with_average(zero_norm={zn}) differs from fsc_with_halfmaps with the same arguments")
+            raw = np.asarray(ld.average_split(n_set=nset, seed=seed, squeeze=False))
+            base_ = raw - raw.mean() if zn else raw
+            for s_ in range(nset):
+                fq, f = fscf(base_[s_, 0] * msk, base_[s_, 1] * msk, dfq)
+                if not np.allclose(a_[0][f"FSC-{s_}"].to_numpy(), f, atol=1e-4, equal_nan=True):
+                    fails.append(f"fsc_with_halfmaps(zero_norm={zn}) is not the FSC of the {'mean-subtracted ' if zn else ''}masked half averages")
         grp = ld.groupby("g")
         # with a soft-edged mask given as an array: every split set is masked exactly once
         soft = np.clip(msk, 0.05, 1.0).astype(np.float32) if float(msk.max() - msk.min()) > 1e-3 else \
@@ -241,6 +253,23 @@ def oracle_loader_fsc_variants(ck, rng, fscf):
                          oracle="loader_fsc_variants")
 
 
+def oracle_mock_fsc_reproducible(ck, rng):
+    """loader FSC is reproducible for a given seed also for a MockLoader with projection noise (the noise is part of the data, seeded per molecule)"""
+    from acryo import MockLoader, Molecules
+    from scipy.spatial.transform import Rotation
+    tmpl = np.zeros((9, 9, 9), dtype=np.float32); tmpl[3:6, 2:7, 4:6] = 1.0; tmpl[5, 5, 2:7] = 2.0
+    mol = Molecules(rng.normal(size=(6, 3)) * 0.3, Rotation.random(6, random_state=1))
+    mk = lambda: MockLoader(tmpl, mol, noise=0.5, degrees=np.linspace(-60, 60, 7), order=1)
+    ck.oracle_count("mock_fsc_reproducible", 1, 1)
+    a = mk().fsc(seed=3, dfreq=0.2).to_numpy(); b = mk().fsc(seed=3, dfreq=0.2).to_numpy()
+    ld = mk()
+    c = ld.fsc(seed=3, dfreq=0.2).to_numpy(); d = ld.fsc(seed=3, dfreq=0.2).to_numpy()
+    if not (np.allclose(a, b, atol=1e-6, equal_nan=True) and np.allclose(c, d, atol=1e-6, equal_nan=True) and np.allclose(a, c, atol=1e-6, equal_nan=True)):
+        ck.violation(what=f"MockLoader(noise=0.5).fsc(seed=3) is not reproducible: curves differ by up to {np.nanmax(np.abs(a - b)):.3f} between two loaders and "
+                          f"{np.nanmax(np.abs(c - d)):.3f} between two calls", inp={"noise": 0.5, "seed": 3}, key={"site": "mock-fsc-reproducible"},
+                     oracle="mock_fsc_reproducible")
+
+
 def run(ck: common.Check):
     ck.design_ref = "DESIGN.md §6 C17"
     ck.trusted_base = TB
@@ -260,6 +289,7 @@ def run(ck: common.Check):
     oracle_fsc(ck, rng)
     from acryo._utils import fourier_shell_correlation as fscf
     oracle_loader_fsc_variants(ck, np.random.default_rng(ck.seed + 171717), fscf)
+    oracle_mock_fsc_reproducible(ck, np.random.default_rng(ck.seed + 17017))
 
 
 def replay(data):
